@@ -220,15 +220,92 @@ def wfBackportItems (pre : Str) (i : Nat) : List Val → Bool
   | v :: rest => wfBackport (subPre pre (dec i)) v && wfBackportItems pre (i + 1) rest
 end
 
-/-! ## The first four passes, staged -/
+/-! ## `simplify_negative_literals` -/
 
-/-- The tree after the first three / four tree-level tweaks, in pipeline order. -/
+abbrev unaryMark : Str := cs!"/_type=UnaryOp"
+
+def isUSubNode : Val → Bool
+  | .node t1 _ _ _ _ => t1 == cs!"USub"
+  | _ => false
+
+/-- A node whose only field is the scalar `n`: its repr and kind. -/
+def onlyN : Val → Option (Str × Kind)
+  | .node _ _ _ _ [(n3, .scalar rv k)] => if n3 == cs!"n" then some (rv, k) else none
+  | _ => none
+
+/-- `-literal` as the pass sees it (after `backport_all_constants`): a `UnaryOp` whose fields are `op`,
+a `USub` node, and `operand`, a node whose only field is the scalar `n`. -/
+def negShape (ty : Str) (fs : List (Str × Val)) : Option (Str × Kind) :=
+  if ty == cs!"UnaryOp" then
+    match fs with
+    | [(n1, v1), (n2, v2)] =>
+      if n1 == cs!"op" && n2 == cs!"operand" && isUSubNode v1 then onlyN v2 else none
+    | _ => none
+  else none
+
+mutual
+/-- Tree-level `simplify_negative_literals`: a `-literal` becomes a `Num` node (keeping the hash source
+and the position of the `UnaryOp`) whose `n` is the literal with a minus sign. -/
+def foldNeg : Val → Val
+  | .node ty e r ln fs =>
+    match negShape ty fs with
+    | some (rv, k) => .node cs!"Num" e r ln [(cs!"n", .scalar ('-' :: rv) k)]
+    | none => .node ty e r ln (foldNegFields fs)
+  | .list q xs => .list q (foldNegItems xs)
+  | .scalar r k => .scalar r k
+def foldNegFields : List (Str × Val) → List (Str × Val)
+  | [] => []
+  | (n, v) :: rest => (n, foldNeg v) :: foldNegFields rest
+def foldNegItems : List Val → List Val
+  | [] => []
+  | v :: rest => foldNeg v :: foldNegItems rest
+end
+
+/-- The shape the pass can handle at a `UnaryOp`: `op` is a bare operator node (no hash, no position, no
+field), `operand` is a node; when the operator is `USub`, the operand either is exactly `(n = scalar)`
+with a non-empty repr (then it is folded) or has no field called `n` (then nothing happens). -/
+def unaryOk (fs : List (Str × Val)) : Bool :=
+  match fs with
+  | [(n1, .node t1 e1 _ ln1 fs1), (n2, .node _ _ _ _ fs2)] =>
+    n1 == cs!"op" && n2 == cs!"operand" && !e1 && ln1.isNone && fs1.isEmpty &&
+      (!(t1 == cs!"USub") ||
+        (match fs2 with
+          | [(n3, .scalar rv _)] => (n3 == cs!"n" && !rv.isEmpty) || !(n3 == cs!"n")
+          | _ => !(fs2.map (·.1)).contains cs!"n"))
+  | _ => false
+
+mutual
+/-- Local clauses for `simplify_negative_literals`. -/
+def wfNeg (pre : Str) : Val → Bool
+  | .node ty _ _ _ fs =>
+    !ty.contains '=' && (fs.map (·.1)).all nameOk && decide (fs.map (·.1)).Nodup &&
+      (if ty == cs!"UnaryOp" then unaryOk fs else true) && wfNegFields pre fs
+  | .list _ xs => wfNegItems pre 1 xs
+  | .scalar r _ => !unaryMark.isSuffixOf (scalarLine pre r)
+def wfNegFields (pre : Str) : List (Str × Val) → Bool
+  | [] => true
+  | (n, v) :: rest => wfNeg (subPre pre n) v && wfNegFields pre rest
+def wfNegItems (pre : Str) (i : Nat) : List Val → Bool
+  | [] => true
+  | v :: rest => wfNeg (subPre pre (dec i)) v && wfNegItems pre (i + 1) rest
+end
+
+/-! ## The six passes, staged -/
+
+/-- The tree after the first three / four / five / six tree-level tweaks, in pipeline order. -/
 def stage3 (t : Val) : Val := quietPosonly [] (dropAliasPos false (dropKinds false t))
 def stage4 (t : Val) : Val := backportTree (stage3 t)
+def stage5 (t : Val) : Val := foldNeg (stage4 t)
+def stage6 (t : Val) : Val := unquoteTree (stage5 t)
 
 /-- The local clauses of the first four passes, each on the tree its pass receives. -/
 def wfStages4 (t : Val) : Bool :=
   wfKinds t && wfAlias [] (dropKinds false t) && wfPosonly [] (dropAliasPos false (dropKinds false t)) &&
     wfBackport [] (stage3 t)
+
+/-- **`Tree.WF`**: the local clauses of the six passes, each on the tree its pass receives
+(Bool-valued; evaluated by the driver on every real tree). -/
+def wfStages6 (t : Val) : Bool :=
+  wfStages4 t && wfNeg [] (stage4 t) && wfUnquote (stage5 t)
 
 end Paroxy.Flat
